@@ -9,5 +9,6 @@ INVARIANT LibraryCellsFresh
 INVARIANT SharedOnlyThroughUser
 INVARIANT DefaultIsAlwaysTheDefault
 INVARIANT DecodedIsIsolated
+INVARIANT RefusedIffSpoiled
 PROPERTY MarshalIsPure
 CHECK_DEADLOCK FALSE
